@@ -149,6 +149,7 @@ type c17Node struct {
 	dead      bool
 	lastRevertOnly bool
 	sinceScan uint64 // lowest height processed since the last reset (0 = from genesis)
+	hmax      uint64 // highest height processed since the last reset
 
 	nBatches, nReorgBatches, nRevised, nFormed, maxDepth int
 }
@@ -340,6 +341,9 @@ func (n *c17Node) sync() {
 			if n.sinceScan > cau.State.Index.Height {
 				n.sinceScan = cau.State.Index.Height
 			}
+			if cau.State.Index.Height > n.hmax {
+				n.hmax = cau.State.Index.Height
+			}
 		}
 		cls, next, failure := n.runBatch(reverted, applied)
 		n.lastRevertOnly = len(applied) == 0
@@ -412,11 +416,8 @@ func (n *c17Node) checkHostLogs() {
 				n.em.Count("hostlog:proof-refusal-while-behind-chain-tip(pool-side proof update)")
 			}
 		} else if strings.Contains(msg, "failed to get proof index element") {
-			if n.tip == n.cm.Tip() {
-				n.em.Monitor("host-misses-proof-height-index-element", msg)
-			} else {
-				n.em.Count("hostlog:proof-index-element-not-yet-processed")
-			}
+			// judged precisely (with the proof height at hand) in checkActions
+			n.em.Count("hostlog:proof-index-element-missing")
 		} else if strings.Contains(msg, "to pool") {
 			n.em.Count("hostlog:pool-refusal-not-proof-related")
 		}
@@ -536,7 +537,7 @@ func (n *c17Node) observe() {
 			continue
 		}
 		ph := rc.elem.V2FileContract.ProofHeight
-		if ph <= n.tip.Height && n.tip.Height < rc.elem.V2FileContract.ExpirationHeight && ph+144 > n.tip.Height && ph >= n.sinceScan {
+		if ph <= n.tip.Height && n.tip.Height < rc.elem.V2FileContract.ExpirationHeight && ph+144 > n.hmax && ph >= n.sinceScan {
 			pi, _ := n.cm.BestIndex(ph)
 			found := false
 			for _, r := range rows {
@@ -584,7 +585,7 @@ func (n *c17Node) checkActions(cs consensus.State) {
 		}
 		cie, err := n.db.ContractChainIndexElement(pi)
 		if err != nil {
-			if fce.V2FileContract.ProofHeight+144 > n.tip.Height && fce.V2FileContract.ProofHeight >= n.sinceScan {
+			if fce.V2FileContract.ProofHeight+144 > n.hmax && fce.V2FileContract.ProofHeight >= n.sinceScan {
 				n.em.Monitor("host-misses-proof-height-index-element", fmt.Sprintf("contract %v proof height %d tip %v", fce.ID, fce.V2FileContract.ProofHeight, n.tip))
 			}
 			continue
@@ -770,6 +771,7 @@ func (n *c17Node) reset() {
 	n.em.Count("op:reset")
 	n.tip = types.ChainIndex{}
 	n.sinceScan = 0
+	n.hmax = 0
 }
 
 func c17Bin(n int) string {
